@@ -29,6 +29,7 @@ class Item:
         self.confirmed = confirmed  # True: witness replayed on the real code; None: no input constructible
         self.replay_path = None
         self.no_input = False
+        self.count = 1  # number of concrete cases an enumeration item stands for
 
 
 def load_known(pid: str):
